@@ -109,11 +109,10 @@ def pop_guards(st, mark):
 
 def push_guard(st, g):
     g = z3bool(g)
-    # mark by identity: wrap in a fresh python object attribute
-    try:
-        g._is_guard = True
-    except Exception:
-        pass
+    # mark by identity.  The mark must sit on a python wrapper of its OWN: the term object itself is shared (it is
+    # also the value of the expression, and may later be assumed as a plain fact, which pop_guards would then drop)
+    g = z3.BoolRef(g.as_ast(), g.ctx)
+    g._is_guard = True
     st.pc.append(g)
 
 
@@ -500,8 +499,12 @@ class ExprMixin:
         t = recv.ty
         if isinstance(t, T.List):
             i = lift(idx, T.INT)
-            j = self.norm_index(i, z3.Length(lift(recv)), st, node)
-            return Val(t.elem, seq_nth(lift(recv), j))
+            n = z3.Length(lift(recv))
+            j = self.norm_index(i, n, st, node)
+            ev = Val(t.elem, seq_nth(lift(recv), j))
+            if isinstance(t.elem, (T.Ref, T.Opt)):
+                self.note_ref(st, ev, z3.And(j >= 0, j < n))
+            return ev
         if t == T.STR:
             i = lift(idx, T.INT)
             j = self.norm_index(i, z3.Length(lift(recv)), st, node)
@@ -515,7 +518,10 @@ class ExprMixin:
             k = lift(idx, t.k)
             s = t.sort()
             self.safety(st, z3.Select(s.dom(lift(recv)), k), "KeyError", node)
-            return Val(t.v, z3.Select(s.map(lift(recv)), k))
+            ev = Val(t.v, z3.Select(s.map(lift(recv)), k))
+            if isinstance(t.v, (T.Ref, T.Opt)):
+                self.note_ref(st, ev, z3.Select(s.dom(lift(recv)), k))
+            return ev
         if isinstance(t, T.Map):
             return Val(t.v, z3.Select(lift(recv), lift(idx, t.k)))
         if isinstance(t, T.Ref):
